@@ -92,6 +92,13 @@ def _functions():
         x = multivariate_normal.sample(mu, cov)
         return x, multivariate_normal.logpdf(x, mu, cov)
 
+    def rscan(mu, xs):
+        # a REVERSE scan: carry and stacked outputs depend on the direction
+        def step(c, x):
+            z = normal.sample(c * 0.5 + x, 1.0)
+            return z + c, (z, normal.logpdf(z, c, 2.0))
+        return jax.lax.scan(step, mu, xs, reverse=True)
+
     def kwsite(mu, s):
         # distribution parameters passed by keyword, both to the sampler and to the density
         x = normal.sample(mu, scale=s)
@@ -130,10 +137,43 @@ def _functions():
         "cat": (cat, [((M23,), 0, None), ((M32,), 1, None)]),
         "pytree": (pytree, [(({"mu": v2, "s": f32(0.5)},), ({"mu": 0, "s": None},), None), (({"mu": v2, "s": np.asarray([0.5, 1.5], f32)},), 0, None)]),
         "mvn": (mvn, [((np.asarray([[0.1, -0.2], [0.3, 0.4]], f32), eye), (0, None), None)]),
+        "rscan": (rscan, [((v2, np.asarray([0.2, 0.3, -0.1], f32)), (0, None), None), ((f32(0.1), M32), (None, 1), None)]),
         "kwsite": (kwsite, [((v2, np.asarray([0.5, 1.5], f32)), 0, None), ((f32(0.3), v2 + f32(1.0)), (None, 0), None)]),
         "kwprobs": (kwprobs, [((np.asarray([0.25, 0.75], f32),), 0, None)]),
         "two_sites": (two_sites, [((v2, f32(0.75)), (0, None), None), ((f32(0.3), v2), (None, 0), None)]),
     }
+
+
+def vmap_merge(g):
+    """Vmap.merge(x, x_, check) is the callee's merge lane by lane, with a per-lane check (the Cond combinator merges the
+    choices of vectorised branches this way) and with check=None; choices with vector-valued lanes included"""
+    from genjax import gen, normal
+    f32 = np.float32
+
+    @gen
+    def lane(m):
+        v = normal(jnp.zeros(3) + m, 1.0) @ "v"         # vector-valued choice per lane
+        s = normal(m, 1.0) @ "s"
+        return jnp.sum(v) + s
+    vm = lane.vmap(in_axes=(0,))
+    N = 3
+    x = {"v": np.zeros((N, 3), f32), "s": np.zeros(N, f32)}
+    chk = np.asarray([True, False, True])
+    T = g.try_trace("Vmap.merge(x, x_, per-lane check) traces", lambda a, b, c: vm.merge(a, b, c)[0], x, x, chk)
+    if T is not None:
+        a_s, b_s, c_s = T.ins
+        for i in range(N):
+            ai, bi = rs.index_tree(a_s, i), rs.index_tree(b_s, i)
+            ci = sj.obj(c_s)[i]
+            xi = jax.tree_util.tree_map(lambda l: l[i], x)
+            L = sj.sym_trace(lambda a, b, c: lane.merge(a, b, c)[0], xi, xi, np.bool_(True),
+                             sym_in=[sj.obj(l) for l in jax.tree_util.tree_leaves((ai, bi), is_leaf=rs._isarr)] + [sj.obj(ci)])
+            g.eq(f"Vmap.merge with a per-lane check: lane {i} == callee.merge on lane {i} (3 lanes x 3-vectors: pairing errors cannot hide)",
+                 rs.index_tree(T.outs, i), L.outs)
+    T2 = g.try_trace("Vmap.merge(x, x_) traces", lambda a, b: vm.merge(a, b)[0], x, x)
+    if T2 is not None:
+        a_s, b_s = T2.ins
+        g.eq("Vmap.merge without a check: the second argument wins in every lane", T2.outs, b_s)
 
 
 GFI_OPS = {"assess": C01, "simulate": C01, "generate": C02, "update": C03, "regenerate": C04}
@@ -168,11 +208,14 @@ def groups(tier, seed):
             gs += [f"mvt:{name}:{i}" for i in range(len(specs))]
     for c in corpus.cases("c08"):
         gs += [f"{op}:{c.name}" for op in GFI_OPS]
+    gs.append("merge")
     return gs
 
 
 def run_group(g, gid):
     kind, _, rest = gid.partition(":")
+    if kind == "merge":
+        return vmap_merge(g)
     if kind in ("mv", "mvt"):
         name, _, i = rest.partition(":")
         fn, specs = (_functions() if kind == "mv" else _thorough_functions())[name]
